@@ -15,7 +15,7 @@ trap 'rm -rf "$A" "$B"' EXIT
 git -C /repo archive HEAD | tar -x -C "$A"; git -C /repo archive HEAD | tar -x -C "$B"
 (cd "$A" && git init -q . 2>/dev/null; patch -p1 -s < "$OUT/patch.diff") || { echo "PATCH DOES NOT APPLY"; exit 1; }
 cp "$OUT/$(basename $DEMO)" "$A/$DEMO"; cp "$OUT/$(basename $DEMO)" "$B/$DEMO"
-RUNCMD=$(echo "$RUN" | sed 's/export [^;]*;//; s/^ *//')
+RUNCMD=$(echo "$RUN" | sed 's/export [^;]*;//; s/^ *//; s/   *(.*$//')
 build=fail; (cd "$A" && go build ./... ) && build=ok
 suite=fail; (cd "$A" && mv "$DEMO" /tmp/demo.$$ && go test -count=1 ./internal/pfcp/ ./internal/report/ ./internal/gtpv1/ ./internal/forwarder/perio/ >/dev/null 2>&1 && go test -count=1 -run 'TestParseFlowDesc|Test_convertSlice' ./internal/forwarder/ >/dev/null 2>&1; r=$?; mv /tmp/demo.$$ "$DEMO"; exit $r) && suite=ok
 with=pass; (cd "$A" && sh -c "$RUNCMD" >/tmp/demoA.$$ 2>&1) || with=fail
